@@ -204,7 +204,8 @@ def restart_head(ctx, rid="C02.R8"):
         nxt = []
         for env in envs:
             e2 = dict(env)
-            e2.update({ST: st, HD: hd, EXC: exc, "self.req.version": (1, 1), "self.req.method": "GET", "self.version": "gunicorn/0"})
+            # (the worker has forced the connection to close before the application ran: the Connection line is determinate)
+            e2.update({ST: st, HD: hd, EXC: exc, "self.req.version": (1, 1), "self.req.method": "GET", "self.version": "gunicorn/0", "self.must_close": True})
             for o in Explorer(f_sr, tracked=tracked, atom_of=atom_of, inline_depth=3).run(f_sr.cfg.entry, e2):
                 if o.kind == "return":
                     nxt.append(carry(o))
@@ -777,7 +778,15 @@ def r6(ctx):
                 for mc in (False, True):
                     ex = Explorer(f, atom_of=call_atom(repo, f))
                     outs = ex.run(f.cfg.entry, {K_MC: mc, K_V: v, K_H: tuple(hdrs)})
-                    got = _single_bool(ctx, "C02.R6", f, outs, hdrs)
+                    try:
+                        got = _single_bool(ctx, "C02.R6", f, outs, hdrs)
+                    except AnalysisError:
+                        # the decision is not a function of (must_close, version, header list): it reads other state of the
+                        # message (e.g. something cached while the headers were parsed -- parse_headers also runs for trailers)
+                        others = sorted(set(norm(x) for t in ex.unknown_tests for x in ast.walk(t.ast) if isinstance(x, ast.Attribute) and tail(x.value) == "self" and x.attr not in ("must_close", "version", "headers")))
+                        ctx.bad("C02.R6", key(f, "decided-by-header-list"), site(f), "Message.should_close() is not determined by must_close, the version and the header list: it also depends on %s -- "
+                                "state that can differ from the header section the client sent (parse_headers is run again for a chunked body's trailer section)" % (others or "other state"))
+                        return
                     w = want(mc, v, hdrs)
                     rows.append({"headers": hdrs, "version": list(v), "must_close": mc, "should_close": got, "required": w})
                     if group == "single":
